@@ -213,7 +213,7 @@ func c09RunAdapter(t *testing.T, ops []string, o *Out) {
 				h := rtp.Header{Version: 2, SSRC: 7, SequenceNumber: 1}
 				b, _ := (&rtp.TransportCCExtension{TransportSequence: uint16(atoi(tw))}).Marshal()
 				_ = h.SetExtension(1, b)
-				if err := fa.OnSent(ts, &h, atoi(m["size"]), interceptor.Attributes{0: uint8(1)}); err != nil {
+				if err := fa.OnSent(ts, &h, atoi(m["size"]), interceptor.Attributes{verifhooks.TwccExtensionAttributesKey: uint8(1)}); err != nil {
 					o.P("err:sent")
 				}
 			} else {
@@ -224,7 +224,7 @@ func c09RunAdapter(t *testing.T, ops []string, o *Out) {
 			}
 		case "sentbad": // TWCC attribute set but no extension in the header: rejected, nothing recorded
 			h := rtp.Header{Version: 2, SSRC: 7, SequenceNumber: 1}
-			if err := fa.OnSent(c09ZT(m["t"]), &h, 10, interceptor.Attributes{0: uint8(1)}); err != nil {
+			if err := fa.OnSent(c09ZT(m["t"]), &h, 10, interceptor.Attributes{verifhooks.TwccExtensionAttributesKey: uint8(1)}); err != nil {
 				o.P("err:missing-ext")
 			} else {
 				o.P("ok")
